@@ -373,8 +373,8 @@ def run(ctx: Ctx):
                           "metrics": rng.choice([["ENERGY", "LATENCY"], ["ENERGY"], ["LATENCY"]]),
                           "max_templates": 6 if ctx.thorough else 2, "max_points": 1500 if ctx.thorough else 700,
                           "limit": 20.0 if ctx.thorough else 10.0})
-    workers = int(os.environ.get("AFV_WORKERS", "6"))
-    results = ML.pool_map(work, cases, workers=min(workers, 6))
+    workers = int(os.environ.get("AFV_WORKERS", "4"))
+    results = ML.pool_map(work, cases, workers=min(workers, 4))
 
     drift: list = []
     n_minmax = 0
@@ -446,7 +446,7 @@ def run(ctx: Ctx):
                 bx = [[max(1, lo + rng.choice([0, 0, 1, 2])), 0] for lo, _ in d["box"]]
                 bx = [[lo, lo + rng.choice([1, 2, 3, 5, 7])] for lo, _ in bx]
                 extra.append({"kind": "fixed", "expr": d["f"], "box": bx, "n": n, "expect": None, "known": known})
-        for case, res in zip(extra, ML.pool_map(work, extra, workers=min(workers, 6))):
+        for case, res in zip(extra, ML.pool_map(work, extra, workers=min(workers, 4))):
             _report(ctx, res, "search-after-disagreement", [])
         if ctx.n_violations() == 0:
             ctx.broken("no variant of the Lean model of the comparator (as-is, or with the early returns removed / the Heaviside "
